@@ -8,25 +8,47 @@ from .pm import ProgramModel
 
 
 class ModelBuilder:
+    """Builds abstract model objects by evaluating the analysed classes' own `__init__` (so that any
+    field a constructor sets - caches included - exists), then pins the fields the checks rely on."""
+
     def __init__(self, pm: ProgramModel) -> None:
+        from .absint import Interp
         self.pm = pm
         ft = pm.enum_members(pm.cls("FeatureType")) if pm.has_cls("FeatureType") else {}
         self.boolean = EnumVal("FeatureType", "BOOLEAN", ft.get("BOOLEAN", "Boolean"))
         self.ops = pm.enum_members(pm.cls("ASTOperation")) if pm.has_cls("ASTOperation") else {}
+        self._it = Interp(pm)
+
+    def _new(self, cls: str, args: list[Any], fields: dict[str, Any]) -> AObj:
+        from .absint import AbsRaise
+        from .core import AnalysisError
+        obj: Optional[AObj] = None
+        if self.pm.has_cls(cls):
+            try:
+                obj = self._it.eval_call_class(self.pm.cls(cls), args)
+            except (AnalysisError, AbsRaise):
+                obj = None
+        if obj is None:
+            obj = AObj(cls)
+        for k, v in fields.items():
+            obj._f[k] = v
+        obj._f.pop("_complete", None)
+        return obj
 
     def op(self, name: str) -> EnumVal:
         return EnumVal("ASTOperation", name, self.ops.get(name, name))
 
     def feature(self, name: str, parent: Optional[AObj] = None, is_abstract: bool = False,
                 ftype: Optional[EnumVal] = None, card: tuple[int, int] = (1, 1)) -> AObj:
-        return AObj("Feature", name=name, parent=parent, relations=[], is_abstract=is_abstract,
-                    feature_type=ftype or self.boolean,
-                    feature_cardinality=AObj("Cardinality", min=card[0], max=card[1]),
-                    attributes=[])
+        cardo = self._new("Cardinality", [card[0], card[1]], {"min": card[0], "max": card[1]})
+        return self._new("Feature", [name], {
+            "name": name, "parent": parent, "relations": [], "is_abstract": is_abstract,
+            "feature_type": ftype or self.boolean, "feature_cardinality": cardo, "attributes": []})
 
     def relation(self, parent: AObj, children: list[AObj], lo: int, hi: int,
                  attach: bool = True) -> AObj:
-        r = AObj("Relation", parent=parent, children=list(children), card_min=lo, card_max=hi)
+        r = self._new("Relation", [parent, list(children), lo, hi],
+                      {"parent": parent, "children": list(children), "card_min": lo, "card_max": hi})
         if attach:
             parent._f["relations"].append(r)
             for c in children:
@@ -34,21 +56,24 @@ class ModelBuilder:
         return r
 
     def node(self, data: Any, left: Optional[AObj] = None, right: Optional[AObj] = None) -> AObj:
-        return AObj("Node", data=data, left=left, right=right)
+        return self._new("Node", [data, left, right], {"data": data, "left": left, "right": right})
 
     def ast(self, root: AObj) -> AObj:
-        return AObj("AST", root=root)
+        return self._new("AST", [root], {"root": root})
 
     def constraint(self, name: str, root: AObj) -> AObj:
-        return AObj("Constraint", name=name, _ast=self.ast(root))
+        a = self.ast(root)
+        return self._new("Constraint", [name, a], {"name": name, "_ast": a})
 
     def model(self, root: AObj, ctcs: Optional[list[AObj]] = None) -> AObj:
-        return AObj("FeatureModel", root=root, ctcs=list(ctcs or []))
+        cs = list(ctcs or [])
+        return self._new("FeatureModel", [root, cs], {"root": root, "ctcs": cs})
 
     def attribute(self, name: str, default: Any = None, parent: Optional[AObj] = None,
                   domain: Any = None, null: Any = None) -> AObj:
-        return AObj("Attribute", name=name, parent=parent, domain=domain, default_value=default,
-                    null_value=null)
+        return self._new("Attribute", [name, domain, default, null],
+                         {"name": name, "parent": parent, "domain": domain, "default_value": default,
+                          "null_value": null})
 
 
 def frozen_list(items: list[Any]) -> Any:
@@ -121,6 +146,8 @@ def rich_model(mb: "ModelBuilder", ctcs: bool = True) -> AObj:
     mb.relation(M, [solo], 1, 1)               # mandatory next to a group
     mb.relation(O, [u, v], 1, 1)               # alternative
     mb.relation(x, [k1, k2, k3], 2, 3)         # cardinality
+    s1, s2, s3 = F("s1"), F("s2"), F("s3")
+    mb.relation(y, [s1, s2, s3], 2, -1)        # [2..*]
     mb.relation(u, [deep], 0, 1)
     mb.relation(deep, [deeper], 1, 1)
     a = mb.attribute("cost", 3, x)
@@ -167,3 +194,16 @@ def twin_model(fm: AObj) -> AObj:
                 r._f["card_min"] = 1
             stack.extend(r._f["children"])
     return fm
+
+
+def same_names_pair(mb: "ModelBuilder") -> tuple[AObj, AObj]:
+    """Two models over the same feature names with different tree shapes (a chain and a flat tree)."""
+    F = mb.feature
+    r1, a1, b1, c1 = F("Root"), F("A"), F("B"), F("C")
+    mb.relation(r1, [a1], 1, 1)
+    mb.relation(a1, [b1], 0, 1)
+    mb.relation(b1, [c1], 1, 1)
+    r2, a2, b2, c2 = F("Root"), F("A"), F("B"), F("C")
+    mb.relation(r2, [a2, b2], 1, 1)
+    mb.relation(r2, [c2], 0, 1)
+    return mb.model(r1, []), mb.model(r2, [])
